@@ -106,8 +106,30 @@ class Live(object):
             walk(cb, None)
         return recs
 
+    def reorder(self, r, wi):
+        """irc.callbacks orders unconstrained plugins arbitrarily (set iteration in addCallback, different from one
+        process to the next): every world fixes an order itself — ascending, descending, then seeded shuffles — so
+        that both relative orders of every pair of plugins are exercised in every run.  Owner stays first, Misc last."""
+        cbs = self.b.irc.callbacks
+        head = [cb for cb in cbs if cb.name() == 'Owner']
+        tail = [cb for cb in cbs if cb.name() == 'Misc']
+        mid = sorted((cb for cb in cbs if cb.name() not in ('Owner', 'Misc')), key=lambda cb: cb.name())
+        if wi % 2 == 1:
+            mid.reverse()
+        if wi >= 2:
+            r.shuffle(mid)
+            if wi % 2 == 1:
+                mid.reverse()
+        cbs[:] = head + mid + tail
+        self.records = self.introspect()
+
     # ---- configuration ("world") ----
     def set_world(self, w):
+        if w.get('order'):
+            by = {cb.name(): cb for cb in self.b.irc.callbacks}
+            if set(by) == set(w['order']):
+                self.b.irc.callbacks[:] = [by[n] for n in w['order']]
+                self.records = self.introspect()
         c = self.conf.supybot
         c.commands.nested.maximum.setValue(w['maxNesting'])
         c.reply.maximumLength.setValue(w['maxLen'])
@@ -667,6 +689,8 @@ def explore(live, r, n_worlds, per_world, corpus=()):
         cases.append(case); lines.append(line); pend.append((case, post))
     for wi in range(n_worlds):
         w = gen_world(r, wi)
+        live.reorder(r, wi)
+        w['order'] = [cb.name() for cb in live.b.irc.callbacks]
         live.set_world(w)
         for l in live.world_lines(w):
             lines.append(l); pend.append((None, None))
